@@ -147,6 +147,8 @@ def stage_enum(ctx):
                         continue
                 judge({"cell": hex(c), "a": a, "b": b, "errors": a == -1 and b == res, "defaults": b == res}, ctx.col, enumerated=True)
     if ctx.shard == 0:
+        a5.get_res0_cells().clear()          # a caller emptying the returned list must not affect later calls
+        a5.cell_to_children(0, 0).append(7)
         r0 = a5.get_res0_cells()
         if r0 != a5.cell_to_children(0, 0) or len(set(r0)) != 12 or set(r0) != set(refids.children(0, 0)):
             raise Violation("get_res0_cells", {"cell": "0x0", "a": -1, "b": 0}, observed=[hex(x) for x in r0], expected="the 12 res-0 cells")
